@@ -1,12 +1,16 @@
-# C08 has two parts.  This file registers the first sentence (phantom creation, package `sampling`);
-# the overstatement theorems of package c0306 (phantom_mvr_worst, phantom_cvr_half, group `overstatement`) will be merged in here.
+# C08 has two parts: phantom creation (Props/C08a, group `phantoms`) and worst-case scoring of phantoms in the
+# overstatement assorter (Props/C08b, group `overstatement`).
 PROP = dict(
-    modules=["Shangrla.Props.C08a"],
+    modules=["Shangrla.Props.C08a", "Shangrla.Props.C08b"],
     theorems=["Shangrla.C08.phantoms_style", "Shangrla.C08.phantoms_nostyle", "Shangrla.C08.phantom_ids_distinct",
-              "Shangrla.Phantoms.style_phantoms", "Shangrla.Phantoms.count_closed"],
-    groups={"phantoms": (6000, 40000)},
+              "Shangrla.Phantoms.style_phantoms", "Shangrla.Phantoms.count_closed",
+              "Shangrla.C08.phantom_mvr_worst", "Shangrla.C08.phantom_mvr_same_errors", "Shangrla.C08.phantom_cvr_half",
+              "Shangrla.C08.phantom_cvr_pooled", "Shangrla.C08.phantom_cvr_pool_mean"],
+    groups={"phantoms": (6000, 40000), "overstatement": (1500, 20000)},
     design_ref="DESIGN.md section 5, C08",
     assumptions=[
+        "phantom_mvr_worst: assorter values >= 0, 2 - v/u > 0, u > 0, the CVR's score is a number (not a nan pool mean)",
+        "phantom_cvr_half: an unpooled phantom CVR is scored exactly 1/2; a pooled one by its pool's mean, to which it contributes its own assorter value (1/2 for every shipped assorter on a record without votes)",
         "contests are a dict keyed by contest id: one contest per id",
         "unstratified audits (exactly one stratum); more than one raises NotImplementedError",
         "'records listing the contest = cards_c' is claimed for inputs that contain no phantom record listing the "
